@@ -200,7 +200,8 @@ def _is_cdr_field_path(ps):
 
 def _projects_car(ps):
     for e in ps:
-        if isinstance(e, dict) and e.get("f") == 0 and e.get("n") in ("0",):
+        # `.0` of the (car, cdr) tuple - not the payload field `.0` of an enum variant such as Value::Cons(cell)
+        if isinstance(e, dict) and e.get("f") == 0 and e.get("n") in ("0",) and "adt" not in e:
             return True
     return False
 
